@@ -109,7 +109,7 @@ def octets(rng, maxlen=40):
     return bytes(rng.randrange(256) for _ in range(n))
 
 
-REAL_DECIMAL = ["0", "1", "-1", "456", "-456", "456.7", "-456.7", "4567e-1", "1E+0", "15E-1", "0.5", "+7", "123456789", "1e10", "-2.5e-3", "4294967296", "-99999999999", "0007", "3.14159265358979", "1.7976931348623157e308", "5e-324", "0.1"]
+REAL_DECIMAL = ["0", "1", "-1", "456", "-456", "456.7", "-456.7", "4567e-1", "1E+0", "15E-1", "0.5", "+7", "123456789", "1e10", "-2.5e-3", "4294967296", "-99999999999", "0007", "3.14159265358979", "1.7976931348623157e308", "5e-324", "0.1", "456,7", "-456,7", "4567,E-1", " 456", "  -456", " 456.7", "  0,5", " 15E-1", "1,5e3", "456.", "456,", ".5", ",5", "+,5E+2"]
 
 
 def real_content(rng, allow_binary=True):
@@ -124,7 +124,7 @@ def real_content(rng, allow_binary=True):
         s = rng.choice(REAL_DECIMAL)
         if "e" in s.lower():
             form = 3
-        elif "." in s:
+        elif "." in s or "," in s:
             form = 2
         else:
             form = 1
